@@ -13,9 +13,14 @@ def toOpt {σ α : Type} : MutRes σ α → Option α
 
 theorem bind_def {σ α β : Type} (r : MutRes σ α) (k : α → MutRes σ β) : (r >>= k) = r.bind k := rfl
 theorem pure_def {σ α : Type} (v : α) : (pure v : MutRes σ α) = .ok v := rfl
-theorem bind_ok {σ α β : Type} (v : α) (k : α → MutRes σ β) : (MutRes.ok v).bind k = k v := rfl
+/- The two reduction laws are deliberately NOT `rfl` lemmas: `simp` would use a `rfl` lemma by `dsimp`, leaving the kernel to
+   re-check `(ok v).bind k ≡ k v` by unfolding, and when `k v` is again a `bind` whose first argument is a 4096-step loop
+   the kernel evaluates that loop (deep recursion). -/
+theorem bind_ok {σ α β : Type} (v : α) (k : α → MutRes σ β) : (MutRes.ok v).bind k = k v := by
+  cases h : k v <;> simp only [MutRes.bind, h]
 theorem bind_panic {σ α β : Type} (m : String) (s : σ) (k : α → MutRes σ β) :
-    (MutRes.panic m s).bind k = .panic m s := rfl
+    (MutRes.panic m s).bind k = .panic m s := by
+  simp only [MutRes.bind]
 theorem bind_ok_right {σ α : Type} (r : MutRes σ α) : r.bind MutRes.ok = r := by cases r <;> rfl
 theorem at_state_ok {σ σ' α : Type} (s : σ') (v : α) : at_state s (MutRes.ok v : MutRes σ α) = .ok v := rfl
 theorem at_state_panic {σ σ' α : Type} (s : σ') (m : String) (t : σ) :
@@ -42,6 +47,20 @@ theorem forIn_yield {σ α β : Type} (F : α → β → MutRes σ β) : ∀ (l 
     cases F a b with
     | ok v => simp only []; exact ih v
     | panic m s => rfl
+
+theorem bind_assoc {σ α β γ : Type} (r : MutRes σ α) (f : α → MutRes σ β) (g : β → MutRes σ γ) :
+    (r.bind f).bind g = r.bind (fun x => (f x).bind g) := by
+  cases r with
+  | ok v => rw [bind_ok, bind_ok]
+  | panic m s => rw [bind_panic, bind_panic, bind_panic]
+
+/-- `forIn_yield` for a body given as it comes out of the `do` notation. -/
+theorem forIn_yield' {σ α β : Type} (body : α → β → MutRes σ (ForInStep β)) (F : α → β → MutRes σ β)
+    (h : ∀ a b, body a b = (F a b).bind (fun v => MutRes.ok (ForInStep.yield v))) (l : List α) (init : β) :
+    forIn l init body = loopM F l init := by
+  have hb : body = fun a b => (F a b).bind (fun v => MutRes.ok (ForInStep.yield v)) := by
+    funext a b; exact h a b
+  rw [hb]; exact forIn_yield F l init
 
 theorem foldl_none {α β : Type} (G : Option β → α → Option β) (hG : ∀ a, G none a = none) :
     ∀ l : List α, l.foldl G none = none := by
